@@ -296,7 +296,7 @@ def _gen_leaf(rng, state=None, p_unpick=0.03):
                 chain_depth=rng.randint(1, 3), state=state or 'live')
 
 
-def _gen_tree(rng, nest, top=True, p_bad=0.04):
+def _gen_tree(rng, nest, top=True, p_bad=0.04, p_share=0.12):
     """nest = remaining EnsembleError nesting depth"""
     state = 'live' if top else rng.choice(['live', 'live', 'live', 'recv'])
     if top and rng.random() < 0.08:
@@ -308,8 +308,15 @@ def _gen_tree(rng, nest, top=True, p_bad=0.04):
             if t == 'val':
                 entries.append(dict(t='val', v=rng.randrange(len(VALS))))
                 continue
-            sub = _gen_tree(rng, nest - 1 if rng.random() < 0.45 else 0, top=False, p_bad=p_bad)
-            if t == 'exc' and rng.random() < p_bad * 5:
+            earlier = [j for j, en in enumerate(entries) if en['t'] in ('rem', 'exc') and 'share' not in en
+                       and en['e']['state'] != 'dead']
+            if earlier and rng.random() < p_share:
+                # the SAME exception object once more: raised again elsewhere and wrapped again (a second
+                # RemoteException with a different text around one object), or the bare object twice
+                entries.append(dict(t=t, share=rng.choice(earlier), depth=rng.randint(1, 4)))
+                continue
+            sub = _gen_tree(rng, nest - 1 if rng.random() < 0.45 else 0, top=False, p_bad=p_bad, p_share=p_share)
+            if t == 'exc' and rng.random() < p_bad * 3:
                 sub['state'] = 'dead'       # a nested exception object without any traceback: ValueError expected
             entries.append(dict(t=t, e=sub))
         return dict(ens=entries, n=rng.randint(0, max(1, len(entries))), depth=rng.randint(1, 4),
@@ -371,7 +378,7 @@ def _count(tree):
     n, d = 1, 1
     for ent in tree['ens']:
         if ent['t'] != 'val':
-            a, b = _count(ent['e'])
+            a, b = _count(ent['e']) if 'e' in ent else (1, 0)
             n += a
             d = max(d, 1 + b)
     return n, d
@@ -594,11 +601,20 @@ def compare(snap, y, path, out, first_texts, top):
 def build(spec, info):
     if spec.get('ens') is not None:
         entries = []
+        objs = []
         for ent in spec['ens']:
             if ent['t'] == 'val':
                 entries.append(VALS[ent['v']])
+                objs.append(None)
                 continue
-            m = build(ent['e'], info)
+            if 'share' in ent:
+                m = objs[ent['share']]
+                info['shared'] = info.get('shared', 0) + 1
+                if ent['t'] == 'rem':
+                    m = raise_and_catch(m, ent['depth'])      # same object, raised again at another site
+            else:
+                m = build(ent['e'], info)
+            objs.append(m)
             if ent['t'] == 'rem':
                 multiprocessing.current_process().name = 'Member'
                 try:
